@@ -14,6 +14,29 @@ import shutil
 import vcheck as V
 
 TRANSLATE = os.path.join(V.VERIF, "translate")
+
+# KNOWN_FINDINGS.txt is a shared file this engine may not edit: until the integrator has copied the lines proposed in
+# notes/redgreen/PROPOSED_KNOWN_FINDINGS.txt into it, they are honoured from there (skipped once an id is present in the real file).
+_PROPOSED = os.path.join(V.VERIF, "notes", "redgreen", "PROPOSED_KNOWN_FINDINGS.txt")
+_orig_load_known = V.load_known
+
+
+def _load_known_with_proposed():
+    known, fixed = _orig_load_known()
+    have = set(k.get("id") for k in known)
+    if os.path.exists(_PROPOSED):
+        for line in open(_PROPOSED):
+            line = line.strip()
+            if line.startswith("known:"):
+                d = dict(kv.split("=", 1) for kv in line[6:].split() if "=" in kv and kv.split("=")[0] in ("property", "id", "match"))
+                if d.get("id") not in have and d.get("property") in ("C04", "C12", "C19"):
+                    d["text"] = line
+                    known.append(d)
+    return known, fixed
+
+
+if V.load_known is not _load_known_with_proposed and getattr(V.load_known, "__name__", "") != "_load_known_with_proposed":
+    V.load_known = _load_known_with_proposed
 OBL = os.path.join(V.COQ, "obligations")
 L_BROKER = "eventlogger.Broker.lock"
 
@@ -194,13 +217,32 @@ def report_static(ctx, prop, st, evidence_for):
 
 # ---------------------------------------------------------------- race reports
 _FRAME = re.compile(r"^\s+(\S+)\(\)\n\s+(\S+):(\d+)", re.M)
+BROKER_PREFIXES = ("eventlogger.Broker.", "eventlogger.nodeUsage.", "eventlogger.graph.", "eventlogger.graphMap.",
+                   "eventlogger.registeredPipeline.", "eventlogger.linkedNode.", "eventlogger.clock.")
 
 
-def parse_race_reports(text, info):
+def is_broker_field(f):
+    return f.startswith(BROKER_PREFIXES)
+
+
+def _short_fn(frame_fn):
+    """github.com/hashicorp/eventlogger/filters/encrypt.(*Filter).Process.func1 -> encrypt.Filter.Process"""
+    f = frame_fn.split("/")[-1]
+    f = re.sub(r"\(\*?(\w+)\)", r"\1", f)
+    f = re.split(r"\.func\d|\.gowrap\d|\.\d", f)[0]
+    return f
+
+
+def parse_race_reports(text, info, scenario=None):
     """split a -race log into reports and classify each by (field, reader fn, writer fn) using the translator's access table"""
     table = {}
     for a in info["accesses"]:
         table.setdefault((os.path.basename(a["file"]), a["line"]), []).append(a)
+    written_by = {}
+    for a in info["accesses"]:
+        if a["kind"] == "W":
+            written_by.setdefault(a["fn"], set()).add(a["field"])
+    calls = info.get("calls", {})
     reports = []
     for blk in text.split("WARNING: DATA RACE")[1:]:
         blk = blk.split("==================")[0]
@@ -210,48 +252,117 @@ def parse_race_reports(text, info):
             m = re.match(r"\s*(Read|Write|Previous read|Previous write) at", p)
             if not m:
                 continue
-            is_write = "rite" in m.group(1)
             frames = [(fn, os.path.basename(fl), int(ln), fl) for fn, fl, ln in _FRAME.findall(p)]
-            stacks.append((is_write, frames))
+            stacks.append(("rite" in m.group(1), frames))
         if len(stacks) < 2:
             continue
         sides = []
         for is_write, frames in stacks[:2]:
             lib = None
             for fn, base, ln, full in frames:
-                if "hashicorp/eventlogger" in fn and "verifharness" not in fn and V.REPO in full:
+                if "hashicorp/eventlogger" in fn and "verifharness" not in fn and full.startswith(V.REPO):
                     lib = (fn, base, ln)
                     break
             accs = table.get((lib[1], lib[2]), []) if lib else []
-            sides.append({"write": is_write, "frame": lib, "top": frames[0] if frames else None, "accesses": accs})
-        fields = None
-        for s in sides:
-            fs = set(a["field"] for a in s["accesses"] if (a["kind"] == "W") == s["write"] or a.get("reflective"))
-            if not fs:
-                fs = set(a["field"] for a in s["accesses"])
-            fields = fs if fields is None else (fields & fs if fields & fs else fields | fs if not fs else fields & fs)
-        field = sorted(fields)[0] if fields else "?"
+            exact = set(a["field"] for a in accs if not a.get("reflective") and (a["kind"] == "W") == is_write)
+            refl = set(a["field"] for a in accs if a.get("reflective"))
+            cand = exact or refl or set(a["field"] for a in accs)
+            sides.append({"write": is_write, "frame": lib, "accesses": accs, "cand": cand, "reflective": bool(refl) and not exact,
+                          "fn": _short_fn(lib[0]) if lib else "?"})
+        a, b = sides
+        field, via = "?", None
+        if a["cand"] & b["cand"]:
+            field = sorted(a["cand"] & b["cand"])[0]
+        else:
+            # the two frames do not name a common field: one side touches memory that was published through a callee of its
+            # function (e.g. the bytes a formatter wrote and then handed to Event.FormattedAs, read by a reflective copy)
+            for known, other in ((a, b), (b, a)):
+                hitf = None
+                for callee in calls.get(other["fn"], []):
+                    hit = written_by.get(callee, set()) & known["cand"]
+                    if hit:
+                        hitf = (sorted(hit)[0], callee)
+                        break
+                if hitf:
+                    field, via = hitf[0], other["fn"]
+                    other["fn"] = hitf[1]
+                    other["accesses"] = []
+                    break
+            else:
+                cands = [x["cand"] for x in (a, b) if x["cand"] and not x["reflective"]]
+                if len(cands) == 1 and len(cands[0]) == 1:
+                    field = sorted(cands[0])[0]
 
         def fn_of(s):
-            for a in s["accesses"]:
-                if a["field"] == field:
-                    return a["fn"]
-            if s["frame"]:
-                f = s["frame"][0].split("/")[-1]
-                return re.sub(r"\(\*(\w+)\)", r"\1", f)
-            return "?"
-        a, b = sides
+            for x in s["accesses"]:
+                if x["field"] == field:
+                    return x["fn"]
+            return s["fn"]
         if a["write"] and not b["write"]:
             reader, writer = fn_of(b), fn_of(a)
         elif b["write"] and not a["write"]:
             reader, writer = fn_of(a), fn_of(b)
         else:
             reader, writer = sorted((fn_of(a), fn_of(b)))
-        in_lib = all(s["frame"] for s in sides)
         reports.append({"field": field, "reader": reader, "writer": writer, "token": "race:%s|%s|%s" % (field, reader, writer),
-                        "library_frames": in_lib, "in_access_table": all(s["accesses"] for s in sides),
-                        "frames": [list(s["frame"]) if s["frame"] else None for s in sides], "text": ("WARNING: DATA RACE" + blk)[:6000]})
+                        "library_frames": all(x["frame"] for x in sides), "in_access_table": all(x["accesses"] for x in sides),
+                        "published_via": via, "reflective_side": any(x["reflective"] for x in sides), "scenario": scenario,
+                        "frames": [list(x["frame"]) if x["frame"] else None for x in sides], "text": ("WARNING: DATA RACE" + blk)[:7000]})
     return reports
+
+
+def run_race_scenarios(ctx, binp, scenarios, outdir, extra_args=(), jobs=6, timeout=900):
+    """run each scenario in its own process (own race log). Returns list of (scenario, summary or None, race log text, rc, output)"""
+    from concurrent.futures import ThreadPoolExecutor
+    os.makedirs(outdir, exist_ok=True)
+
+    def one(i_sc):
+        i, sc = i_sc
+        d = os.path.join(outdir, "s%03d" % i)
+        os.makedirs(d, exist_ok=True)
+        f = os.path.join(d, "scenario.json")
+        json.dump({"case": sc}, open(f, "w"))
+        env = dict(os.environ, VERIF_SEED=str(ctx.seed), GORACE="log_path=%s halt_on_error=0" % os.path.join(d, "race"))
+        try:
+            rc, out = V.run([binp, "-replay", f, "-out", d] + list(extra_args), env=env, timeout=timeout)
+        except Exception as e:  # timeout
+            rc, out = 124, "timeout: %s" % e
+        log = ""
+        for fn in sorted(os.listdir(d)):
+            if fn.startswith("race."):
+                log += open(os.path.join(d, fn), errors="replace").read()
+        summ = None
+        for fn in os.listdir(d):
+            if fn.endswith("_summary.json"):
+                summ = json.load(open(os.path.join(d, fn)))
+        return sc, summ, log, rc, out
+    with ThreadPoolExecutor(max_workers=jobs) as ex:
+        return list(ex.map(one, enumerate(scenarios)))
+
+
+def report_races(ctx, prop, reports, mine, explained_fields):
+    """one violation per distinct access pair among the reports that belong to this property"""
+    by_tok = {}
+    ignored = 0
+    for r in reports:
+        if not r["library_frames"]:
+            ignored += 1
+            continue
+        if not mine(r["field"]):
+            ignored += 1
+            continue
+        by_tok.setdefault(r["token"], []).append(r)
+    for tok, rs in sorted(by_tok.items()):
+        r = rs[0]
+        if r["field"] in explained_fields:
+            continue            # already reported with the static complaint about that field (this report is its replay)
+        rp = V.write_replay(ctx, "race-" + re.sub(r"[^A-Za-z0-9]+", "_", tok)[:90], {
+            "kind": "correspondence", "engine": "stressh" if prop == "C19" else "conch", "theorem_or_correspondence": "race detector vs the generated access table",
+            "access_pair": tok, "reports_with_this_pair": len(rs), "case": r["scenario"], "race_report": r["text"], "library_frames": r["frames"],
+            "note": "this access pair is NOT predicted by the static obligation on this tree: either the translator's access extraction / Contracts.v is incomplete, or the race is on memory outside the tracked fields"
+                    if r["field"] not in explained_fields else "", "repro": "bin/check replay <this file>"})
+        ctx.violations.append({"match": tok, "replay": rp, "what": "data race (race detector): field %s, %s vs %s" % (r["field"], r["reader"], r["writer"])})
+    return by_tok, ignored
 
 
 # ---------------------------------------------------------------- C12
@@ -346,12 +457,90 @@ def check_C12(ctx):
         "a function is charged with the locks of the goroutines it starts (the starter may wait for them)"]
 
 
+# ---------------------------------------------------------------- C19
+def _stress(ctx, part, info):
+    binp, out = V.go_build(ctx, "./cmd/stressh", race=True)
+    if not binp:
+        rp = V.write_replay(ctx, "harness-build", {"kind": "correspondence", "output": out[-4000:]})
+        ctx.violations.append({"match": "harness-build", "replay": rp, "what": "stressh no longer builds (-race) against the tree", "no_input": True})
+        return None
+    nrandom, events = ("6", "120") if ctx.tier == "quick" else ("60", "400")
+    rc, out = V.run([binp, "-list", "-random", nrandom, "-events", events], env=dict(os.environ, VERIF_SEED=str(ctx.seed)))
+    scenarios = [json.loads(l) for l in out.splitlines() if l.startswith("{")]
+    corpus = os.path.join(V.VERIF, "corpus", "C19", "stressh.jsonl")
+    if os.path.exists(corpus):
+        have = set(sc["name"] for sc in scenarios)
+        pre = [json.loads(l) for l in open(corpus) if l.startswith("{")]
+        scenarios = [dict(sc, name="corpus-" + sc["name"]) for sc in pre] + scenarios
+    runs = run_race_scenarios(ctx, binp, scenarios, os.path.join(ctx.work, "stress-out"), jobs=6 if ctx.tier == "quick" else 8)
+    reports, pairs, sent, docs, integrity, panics, crashed = [], set(), 0, 0, [], [], []
+    for sc, summ, log, rc, o in runs:
+        reports += parse_race_reports(log, info, scenario=sc) if info else []
+        if summ is None or rc not in (0, 66):
+            crashed.append((sc, rc, o[-3000:]))
+            continue
+        pairs |= set(summ["neighbour_pairs_covered"] or [])
+        sent += summ["events_sent"]
+        docs += summ["documents_in_sinks"]
+        integrity += [(sc, x) for x in (summ["integrity_failures"] or [])]
+        panics += [(sc, x) for x in (summ["panics"] or [])]
+    part.update({"scenarios": len(scenarios), "events_sent": sent, "documents_in_sinks": docs, "neighbour_pairs_covered": sorted(pairs),
+                 "neighbour_pairs_possible": 33, "race_reports": len(reports), "integrity_failures": len(integrity), "panics": len(panics),
+                 "scenario_names": [sc["name"] for sc in scenarios], "seed": ctx.seed,
+                 "rule": "pipelines composed from the stock node catalogue (shared node instances, several pipelines per type), 2..8 senders through Broker.Send, "
+                         "concurrent Broker.Reopen / FileSink.Reopen / rotation by size / encrypt.Filter.Rotate (API and in-band) / cloudevents Rotate / gated FlushAll, "
+                         "built with -race, one process per scenario; distinct_nontrivial = distinct scenarios (composition x controls) in which events reached a sink"})
+    for sc, rc, o in crashed:
+        rp = V.write_replay(ctx, "stress-crash-" + sc["name"], {"kind": "correspondence", "engine": "stressh", "case": sc, "exit_code": rc, "output": o})
+        ctx.violations.append({"match": "crash:" + sc["name"], "replay": rp, "what": "stress scenario %s crashed (exit %s)" % (sc["name"], rc)})
+    for sc, x in integrity[:5]:
+        rp = V.write_replay(ctx, "integrity-" + sc["name"], {"kind": "correspondence", "engine": "stressh", "case": sc, "observed_value": x})
+        ctx.violations.append({"match": "integrity:" + x.split(":")[0], "replay": rp, "what": "corrupted sink output: " + x})
+    for sc, x in panics[:5]:
+        rp = V.write_replay(ctx, "panic-" + sc["name"], {"kind": "correspondence", "engine": "stressh", "case": sc, "observed_value": x})
+        ctx.violations.append({"match": "panic:" + x[:60], "replay": rp, "what": "panic under concurrent use: " + x})
+    ctx.coverage["evaluations"] += len(scenarios)
+    ctx.coverage["distinct_nontrivial"] += len(set(json.dumps(sc, sort_keys=True) for sc, summ, _, _, _ in runs if summ and summ["documents_in_sinks"] > 0))
+    ctx.coverage["rule"] = part["rule"]
+    ctx.coverage["samples"] += scenarios[:1] + scenarios[-1:]
+    return reports
+
+
+def _race_evidence(reports, engine):
+    def evidence(group):
+        for r in reports:
+            if r["token"] in group["tokens"] and r["library_frames"]:
+                return {"engine": engine, "case": r["scenario"], "access_pair": r["token"], "race_report": r["text"], "library_frames": r["frames"]}
+        return None
+    return evidence
+
+
+def check_C19(ctx):
+    V.check_properties_file(ctx, "Properties_C19.v")
+    st = static_part(ctx, "C19")
+    part = {}
+    ctx.coverage["parts"]["stock-node-stress(-race)"] = part
+    reports = _stress(ctx, part, st["info"]) or []
+    if st["dir"]:
+        report_static(ctx, "C19", st, _race_evidence(reports, "stressh"))
+    explained = set(t for g in st["groups"] for t in g["tokens"])
+    by_tok, ignored = report_races(ctx, "C19", [r for r in reports if r["token"] not in explained], lambda f: not is_broker_field(f), set())
+    part["race_pairs_seen"] = sorted(set(r["token"] for r in reports))
+    part["race_reports_on_fields_of_other_properties_ignored"] = ignored
+    ctx.assumptions += ASSUME_COMMON + [
+        "objects reachable only through a guarded field (container/list, maps, *os.File) are accessed only via that field",
+        "a function literal passed as an argument is run by the callee synchronously with the caller's lock set (sync.Map.Range, sort.Slice)",
+        "payload contents are user data: reads of the shared payload graph are not tracked, writes only after copystructure.Copy (pseudo lock COPY)",
+        "'no corrupted output' beyond JSON well-formedness of every sink's output rests on C08 / C13 / C16",
+        "waiver: Contracts.known_waivers (encrypt.Filter.Process reading Event.Formatted through copystructure.Copy) mirrors known finding KF-C19-copy-vs-formattedas"]
+
+
 # ---------------------------------------------------------------- manifest
 _NOTE = ("Trusted: Coq 8.16.1 kernel + vm_compute; no axioms (Print Assumptions: closed under the global context); the translator translate/ (source -> "
          "command language; cross-checked by the race detector), coq/Contracts.v (the discipline table = specification), the Go runtime's mutex semantics and memory "
          "model, the dynamic drivers (search only).")
 _TECH = "Coq soundness proof of a modular lockset checker + obligation re-evaluated by vm_compute on the program regenerated from source; dynamic search (-race / watchdog)"
-PROPS = {"C12": check_C12}
+PROPS = {"C12": check_C12, "C19": check_C19}
 MANIFEST = {
     "C12": {"text": "LockSound.v: check_sound (checker sound w.r.t. the big-step trace semantics, for every program/contract/extra caller locks), "
                     "program_callback_never_under / program_no_self_deadlock / program_call_releases_all for all threads incl. started goroutines; per run "
@@ -360,8 +549,17 @@ MANIFEST = {
                     "re-entrant node x gated filter with 0..3 groups x parked writer.",
             "design_ref": "5.C12", "note": _NOTE, "technique": _TECH, "engine": "coq-locks"},
 }
-ENGINE = {"name": "coq-locks", "path": "coq/LockLang.v coq/LockSound.v coq/Contracts.v coq/LockExamples.v coq/obligations translate/ harness/cmd/lockh lib/eng_locks.py",
-          "serves_properties": ["C12"], "kind_free_text": "translator (Go source -> Coq command language) + proved lockset checker re-run by vm_compute; watchdog / race-detector search drivers"}
+MANIFEST["C19"] = {
+    "text": "LockSound.v: program_safe (every access of every thread holds its guard; immutable fields written by constructors only) and program_no_data_race "
+            "(any two threads, any interleaving permitted by the lock rules: never a write and a conflicting access to one guarded field enabled together) for every "
+            "program/contract; per run Obl_C19.v re-proves stock_nodes_race_free_partial over the regenerated program of all six packages (Event.Formatted -> Event.l, "
+            "FileSink.{f,BytesWritten,LastCreated} -> FileSink.l, gated.Filter state -> its l, encrypt.Filter.{Wrapper,HmacSalt,HmacInfo} -> its l, cloudevents Signer -> its l, "
+            "configuration fields immutable). Partial: accesses excused by the waiver of KF-C19-copy-vs-formattedas; Go memory model and translator completeness assumed "
+            "(cross-checked by -race). Search: stressh -race over compositions of stock nodes with shared instances, 2..8 senders and concurrent control calls; reports classified by "
+            "(field, reader fn, writer fn).",
+    "design_ref": "5.C19", "note": _NOTE, "technique": _TECH, "engine": "coq-locks"}
+ENGINE = {"name": "coq-locks", "path": "coq/LockLang.v coq/LockSound.v coq/Contracts.v coq/LockExamples.v coq/obligations translate/ harness/cmd/lockh harness/cmd/stressh harness/cmd/conch lib/eng_locks.py",
+          "serves_properties": ["C12", "C19"], "kind_free_text": "translator (Go source -> Coq command language) + proved lockset checker re-run by vm_compute; watchdog / race-detector search drivers"}
 
 
 # ---------------------------------------------------------------- replay
